@@ -257,8 +257,8 @@ def gen_merge_case(rng):
 
 
 def gen_euler_case(rng):
-    n = rng.randint(1, 4)
-    m = rng.randint(2, 10)
+    n = rng.randint(1, 3)
+    m = rng.randint(2, 6)          # exact arithmetic: the size of the rationals doubles with every Euler step
     z = sorted(rng.uniform(0, 1e5) for _ in range(m))
     z[0] = 0.0
     lum = [1.0 if rng.random() < 0.7 else rng.uniform(0.4, 1.0) for _ in range(m)]
